@@ -464,6 +464,23 @@ func (e *racEnv) call(x *ECall) gval {
 		return gval{s: "big.NewInt(int64(len(" + e.eval(a[0]).s + ")))", k: gInt, elem: nil}
 	case "cap":
 		return gval{s: "big.NewInt(int64(cap(" + e.eval(a[0]).s + ")))", k: gInt, elem: nil}
+	case "same", "filled":
+		// desugared to the element-wise quantifier
+		t := &EIdent{Name: "racT"}
+		at := func(sl Expr, off Expr) Expr {
+			idx := &EBin{Op: "+", X: off, Y: t}
+			if o, ok := sl.(*EOld); ok {
+				return &EOld{X: &EIndex{X: o.X, I: idx}}
+			}
+			return &EIndex{X: sl, I: idx}
+		}
+		var n, body Expr
+		if x.Fn == "same" {
+			n, body = a[4], &EBin{Op: "==", X: at(a[0], a[1]), Y: at(a[2], a[3])}
+		} else {
+			n, body = a[2], &EBin{Op: "==", X: at(a[0], a[1]), Y: a[3]}
+		}
+		return e.eval(&EForall{Var: "racT", Lo: &ELit{V: "0"}, Hi: &EBin{Op: "-", X: n, Y: &ELit{V: "1"}}, Body: body})
 	case "extends":
 		// observable part: the same array means the same capacity and no shrinking; a result inside the original
 		// array at another offset is never right; "allocated after the call" cannot be seen at run time
